@@ -178,6 +178,7 @@ fn setup_ops() -> Vec<Op> {
         json!({"id": 4, "s": "", "i": -1, "u": 1, "f": 1e308, "b": false, "e": "y", "o": -5, "os": "", "d": 1700090000}),
         json!({"id": 5, "s": "true", "i": 7, "u": 7, "f": 1e-7, "b": true, "e": "x", "o": 7, "os": "null", "d": 1700000001}),
         json!({"id": 6, "s": "1.5", "i": 7, "u": 8, "f": 3.0, "b": false, "e": "y", "o": 7, "os": "7", "d": 1700000002}),
+        json!({"id": 7, "s": "[1,2,3]", "i": 8, "u": 9, "f": 4.5, "b": true, "e": "x", "o": 8, "os": "{\"a\":1}", "d": 1700000003}),
     ];
     for (i, r) in rows.iter().enumerate() {
         ops.push(Op::Cmd { text: format!("STORE v FOR c{} PAYLOAD {}", i % 2, r) });
@@ -224,7 +225,7 @@ pub fn check(tier: &str) -> i32 {
     let t0 = std::time::Instant::now();
     let scratch = Scratch::new("c20");
     let qs = queries();
-    let batch_sizes: Vec<Option<usize>> = if tier == "quick" { vec![None, Some(1)] } else { vec![None, Some(0), Some(1), Some(2)] };
+    let batch_sizes: Vec<Option<usize>> = if tier == "quick" { vec![None, Some(0), Some(1)] } else { vec![None, Some(0), Some(1), Some(2)] };
     let layouts = ["mem", "flushed"];
     let work: Vec<(Option<usize>, &str)> = batch_sizes.iter().flat_map(|b| layouts.iter().map(move |l| (*b, *l))).collect();
     let res = par_map(&work, threads(), |wi, (bs, layout)| -> Result<Vec<(String, Vec<String>, usize)>, String> {
